@@ -13,6 +13,8 @@ package conf
 //                                whose mutation changed a fingerprint of the original taken before)
 //   clonem <Method> <name> <seed> <V>   the same through another copy constructor found by reflection
 //                                (parameterless method of *Conf / *Path returning the same type)
+//   apiread <seed> <V>           loader-built Conf #seed as the running configuration of a real api.API (external
+//                                half of the harness, package conf_test); all config GET endpoints; "changed=<0|1>"
 //   reject <seed> <slot> <V>     loader-built Conf #seed; Clone; PatchPath(first path, source=bogus);
 //                                Validate rejects; answer "changed=<0|1>" (fingerprint of the original)
 
@@ -797,6 +799,28 @@ func verifC11Exec(op string) string {
 		}
 		return fmt.Sprintf("%s slots=%d alias=%s", out, m.slots, al)
 
+	case "apiread":
+		// every configuration GET endpoint of the real api.API, the loader-built Conf being the running one:
+		// reads (which clone and redact) must leave it untouched
+		var seed uint64
+		fmt.Sscan(f[1], &seed)
+		p := verifC11Build("lconf", seed)
+		_, enc := verifC11EncodeOrig(p)
+		if enc != f[2] {
+			return "value-not-reproducible"
+		}
+		if VerifC11APIReads == nil {
+			return "no-api-hook"
+		}
+		fp0 := verifC11Fingerprint(p.Elem())
+		if e := VerifC11APIReads(p.Interface().(*Conf)); e != "" {
+			return e
+		}
+		if verifC11Fingerprint(p.Elem()) != fp0 {
+			return "changed=1"
+		}
+		return "changed=0"
+
 	case "reject":
 		var seed uint64
 		fmt.Sscan(f[1], &seed)
@@ -830,6 +854,10 @@ func verifC11Exec(op string) string {
 	return "bad-op"
 }
 
+// VerifC11APIReads is installed by the external half of the harness (package conf_test, which may import
+// internal/api): it serves all configuration GET endpoints with c as the running configuration.
+var VerifC11APIReads func(c *Conf) string
+
 // first path (sorted) and the slot of its `source` inside the copy
 func verifC11RejectTarget(c *Conf) (string, string) {
 	name := sortedKeys(c.OptionalPaths)[0]
@@ -859,6 +887,7 @@ func verifC11Gen(r *verifutil.Rand, i int, thorough bool) []string {
 		if name == "lconf" {
 			_, slot := verifC11RejectTarget(p.Interface().(*Conf))
 			ops = append(ops, fmt.Sprintf("reject %d %s %s", seed, slot, enc))
+			ops = append(ops, fmt.Sprintf("apiread %d %s", seed, enc))
 		}
 	}
 	return ops
@@ -866,7 +895,7 @@ func verifC11Gen(r *verifutil.Rand, i int, thorough bool) []string {
 
 func TestVerifC11(t *testing.T) {
 	verifutil.Main(t, &verifutil.Harness{
-		ID: "C11", Exec: verifC11Exec, Gen: verifC11Gen, Quick: 300, Thorough: 8000,
+		ID: "C11", Exec: verifC11Exec, Gen: verifC11Gen, Quick: 200, Thorough: 6000,
 		Class: func(op, impl string) string {
 			f := strings.Fields(op)
 			switch f[0] {
@@ -874,6 +903,8 @@ func TestVerifC11(t *testing.T) {
 				return "reset/" + f[1]
 			case "reject":
 				return "reject/" + impl
+			case "apiread":
+				return "apiread/" + impl
 			case "clonem":
 				f = f[1:]
 			}
